@@ -10,6 +10,7 @@ the `fmtw dump` / `fmtw load` correspondence streams.
 import Iodata.Lemmas.Fmt.FcidumpW
 import Iodata.Lemmas.Fmt.PoscarW
 import Iodata.Lemmas.Fmt.FchkO
+import Iodata.Lemmas.Fmt.WfnS
 import Iodata.Gen.LayoutsW
 
 namespace Iodata.Props.C02W
@@ -176,6 +177,43 @@ example : ((FchkO.fieldsOf 8 (FchkO.resolve (FchkO.levelOf fchkL.absent (some "c
       fun f => (String.ofList f.1, f.2)) =
     [("Total CC Density", .reals [⟨false, 123456789, 0⟩]),
      ("Quadrupole Moment", .reals [⟨false, 11, 1⟩, ⟨false, 22, 1⟩, ⟨false, 33, 1⟩, ⟨false, 12, 1⟩, ⟨false, 13, 1⟩, ⟨false, 23, 1⟩])] := by
+  decide +kernel
+
+/-! ## WFN (section layer; the coefficient semantics is C01's) -/
+
+/-- WFN: `load_wfn_low` on the written file returns the written arrays: title, atoms (element through the symbol
+heuristic, coordinates cut by column), one-based centre and type assignments as zero-based indices, exponents,
+per orbital its number, occupation, energy and coefficients, the energy and virial (`nan` when absent) and the `$MOSPIN`
+list — for every number of atoms below 10³, every number of primitives and orbitals (ragged last lines of all sections),
+every value that fits its column. -/
+theorem wfn_load_dump (T : Tables) (L : WfnS.Layout) (hL : WfnS.LayoutOK L) (o : WfnS.Obj) (h : WfnS.Dom T L o) :
+    WfnS.load T L (WfnS.dump T L o) = .ok (WfnS.norm L o) :=
+  WfnS.load_dump T L hL o h
+
+/-- WFN / WFX sections: chunk and cut for all sizes — a section written `per` items per line (last line ragged) under a
+header of `skip` columns is read back item by item by the cut loop `while len(line) >= step`, whatever was read before
+and whatever follows. -/
+theorem wfn_section_roundtrip (α : Type) (conv : Str → Option α) (start header : Str) (skip step per : Nat) (render : α → Str)
+    (hstep : 2 ≤ step) (hper : 0 < per) (hst : startsWith start (ljust skip (header.take skip)) = true)
+    (items : List α) (hx : ∀ x ∈ items, (render x).length = step ∧ conv (replaceD (render x)) = some x) (rest : List Str) :
+    WfnS.readSec conv start skip step items.length (WfnS.secLines header skip per render items ++ rest) = .ok (items, rest) :=
+  WfnS.readSec_secLines conv start header skip step per render hstep hper hst items hx rest
+
+/-- WFN: the layout in the source satisfies the side conditions (reader slices = writer columns, section names start
+their lines, items at least two wide), all 118 elements survive the symbol heuristic, and the `FMT_*` templates, the
+five section definitions, the `_dump_helper_section` / `_load_helper_section` calls, the reader's slices and string
+constants in the source are the ones the model transcribes. -/
+theorem wfn_source_shape :
+    WfnS.LayoutOK wfnL ∧ (∀ z ∈ List.range' 1 118, WfnS.okZ tables wfnL z = true) ∧ wfnSource = WfnS.expectedSource wfnL := by
+  decide +kernel
+
+/-- non-vacuity: a domain object with 7 primitives (two ragged lines of exponents), two orbitals, no energy, a spin list,
+coordinates filling their 12 columns. -/
+example : WfnS.Dom tables wfnL ⟨[], [⟨8, ⟨true, 9912345678⟩, ⟨false, 99912345678⟩, ⟨true, 0⟩⟩, ⟨17, ⟨false, 0⟩, ⟨false, 1⟩, ⟨false, 2⟩⟩],
+    (List.range 7).map (fun k => (k % 2, k, ⟨false, 12345678 + k, -2⟩)),
+    [⟨⟨false, 20000000⟩, ⟨true, 20123456⟩, (List.range 7).map (fun k => ⟨k % 2 == 1, 123456789, 0⟩)⟩,
+     ⟨⟨false, 0⟩, ⟨false, 500000⟩, (List.range 7).map (fun k => ⟨false, 100000000 + k, -1⟩)⟩],
+    none, some ⟨false, 200000001⟩, some [3, 3]⟩ := by
   decide +kernel
 
 end Iodata.Props.C02W
